@@ -1,10 +1,13 @@
 use crate::engine::RunCtx;
 
+pub mod c01;
+pub mod c02;
 pub mod c04;
 pub mod c05;
 pub mod c06;
 pub mod c17;
 pub mod c27;
+pub mod crash;
 
 pub struct Entry {
     pub id: &'static str,
@@ -13,6 +16,8 @@ pub struct Entry {
 }
 
 pub const REGISTRY: &[Entry] = &[
+    Entry { id: "C01", level: "fault_enumeration", run: c01::run },
+    Entry { id: "C02", level: "fault_enumeration", run: c02::run },
     Entry { id: "C04", level: "exploration", run: c04::run },
     Entry { id: "C05", level: "exploration", run: c05::run },
     Entry { id: "C06", level: "exploration", run: c06::run },
